@@ -1,4 +1,5 @@
 pub mod c06;
+pub mod c07;
 pub mod c08;
 pub mod c09;
 pub mod c10;
@@ -8,12 +9,14 @@ pub mod c13;
 pub mod c14;
 pub mod c15;
 pub mod c16;
+pub mod c19;
+pub mod ros_safety;
 pub mod safety;
 
 use crate::engine::PropertyDef;
 
 pub fn all_ids() -> Vec<&'static str> {
-    vec!["C01", "C02", "C03", "C06", "C08", "C09", "C10", "C11", "C12", "C13", "C14", "C15", "C16", "C18"]
+    vec!["C01", "C02", "C03", "C04", "C05", "C06", "C07", "C08", "C09", "C10", "C11", "C12", "C13", "C14", "C15", "C16", "C18", "C19"]
 }
 
 pub fn property(id: &str) -> Option<PropertyDef> {
@@ -21,7 +24,10 @@ pub fn property(id: &str) -> Option<PropertyDef> {
         "C01" => Some(safety::def_c01()),
         "C02" => Some(safety::def_c02()),
         "C03" => Some(safety::def_c03()),
+        "C04" => Some(ros_safety::def_c04()),
+        "C05" => Some(ros_safety::def_c05()),
         "C06" => Some(c06::def()),
+        "C07" => Some(c07::def()),
         "C08" => Some(c08::def()),
         "C09" => Some(c09::def()),
         "C10" => Some(c10::def()),
@@ -32,6 +38,7 @@ pub fn property(id: &str) -> Option<PropertyDef> {
         "C15" => Some(c15::def()),
         "C16" => Some(c16::def()),
         "C18" => Some(safety::def_c18()),
+        "C19" => Some(c19::def()),
         _ => None,
     }
 }
